@@ -346,6 +346,10 @@ def _sites_in(prog: Program, fi: FuncInfo) -> list[MemoSite]:
             p = _attr_path(n) if isinstance(n, ast.Attribute) else None
             if p in paths:
                 return True
+            # getattr(owner, "attr", default) reads owner.attr
+            if isinstance(n, ast.Call) and norm(n.func) == "getattr" and len(n.args) >= 2 and isinstance(n.args[0], ast.Name) and isinstance(n.args[1], ast.Constant) \
+                    and f"{n.args[0].id}.{n.args[1].value}" in paths:
+                return True
             if isinstance(n, ast.Name) and (alias.get(n.id) in paths):
                 return True
             if isinstance(n, ast.Name) and n.id in F.binds:
